@@ -46,6 +46,7 @@ SuffixConforms(e) ==
 (* ---- previous text (C04, C05, C06, C10, C11)                                    *)
 EditConforms(e) ==
     /\ e.panic = FALSE
+    /\ InLang(RefType(e.fam, IF e.op = "resolve" THEN "full" ELSE e.kind), e.post)
     /\ e.post \in EditApply(e.fam, e.kind, e.pre, [op |-> e.op, arg |-> e.arg])
 
 (* ---- construction: verdict and components of random texts (C01, C02) ---- *)
@@ -59,8 +60,27 @@ ParseBytesConforms(e) ==
     /\ e.ok = (WellFormedUtf8(e.bytes) /\ InLang(e.ty, Utf8Decode(e.bytes)))
     /\ e.kept          \* accepted text / returned payload is the input, byte for byte
 
+(* ---- very large inputs, judged structurally (C09, C12, C20).  A path made of n equal *)
+(* ---- dot-free segments is a fixed point of normalisation (MC_Paths checks that      *)
+(* ---- theorem on the bounded model: NoDotFixedPoint); borrowed access allocates      *)
+(* ---- nothing; the components of "s://h" path "?q#f" tile the input.                 *)
+BigPathConforms(e) ==
+    /\ e.panic = FALSE
+    /\ e.copy_unchanged /\ e.inplace_unchanged
+    /\ e.normalized_len = e.n /\ e.count = e.n /\ e.count_back = e.n
+    /\ e.allocs = 0
+BigRefConforms(e) ==
+    /\ e.panic = FALSE
+    /\ e.allocs = 0
+    /\ e.scheme = <<0, 1>> /\ e.authority = <<4, 1>> /\ e.path = <<5, e.plen>> /\ e.parts_path = e.path
+    /\ e.query = <<5 + e.plen + 1, 1>> /\ e.fragment = <<5 + e.plen + 3, 1>>
+    /\ e.len = 5 + e.plen + 4
+    /\ e.base = <<0, 5 + e.plen - e.seglen>>            \* up to and including the last "/" of the path
+
 Conforms(e) ==
     CASE e.ev = "rel"    -> RelConforms(e)
+      [] e.ev = "big_path" -> BigPathConforms(e)
+      [] e.ev = "big_ref"  -> BigRefConforms(e)
       [] e.ev = "parse"  -> ParseConforms(e)
       [] e.ev = "parse_bytes" -> ParseBytesConforms(e)
       [] e.ev = "edit"   -> EditConforms(e)
